@@ -61,7 +61,7 @@ def engine_cfg(conf):
 
 def _engine_cfg(d):
     return {'role': d['role'], 'bs': d['bs'], 'resetOnLogon': d['resetOnLogon'], 'resetOnLogout': d['resetOnLogout'],
-            'resetOnDisconnect': d['resetOnDisconnect'], 'refreshOnLogon': False, 'chunk': d['chunk'],
+            'resetOnDisconnect': d['resetOnDisconnect'], 'refreshOnLogon': bool(d.get('refreshOnLogon')), 'chunk': d['chunk'],
             'persist': d['persist'], 'checkLatency': d['checkLatency'], 'hbOverride': d['hbOverride'], 'hbCfg': 30,
             'resetSeqTime': d['resetSeqTime'], 'schedule': d['schedule']}
 
@@ -70,7 +70,7 @@ def conf_name(conf):
     d = dict(DEFAULTS)
     d.update(conf)
     flags = ''.join(c for c, k in (('L', 'resetOnLogon'), ('O', 'resetOnLogout'), ('D', 'resetOnDisconnect'),
-                                   ('H', 'hbOverride'), ('T', 'resetSeqTime'), ('S', 'schedule')) if d[k]) + ('d' if conf.get('dd') else '')
+                                   ('H', 'hbOverride'), ('T', 'resetSeqTime'), ('S', 'schedule')) if d[k]) + ('d' if conf.get('dd') else '') + ('R' if conf.get('refreshOnLogon') else '')
     return '%s-%d-c%d%s%s%s' % (d['role'], d['bs'], d['chunk'], '' if d['persist'] else '-np',
                                 '' if d['checkLatency'] else '-nl', ('-' + flags) if flags else '')
 
@@ -159,10 +159,10 @@ class Family:
             self.scripts.append({'id': '%s/%s%d' % (conf_name(conf), tag, len(self.scripts)), 'cfg': ecfg, 'steps': steps})
 
     # ------------------------------------------------------------------ R + V
-    def replay_and_validate(self, store='memory', chunk_lines=150000):
+    def replay_and_validate(self, store='memory', chunk_lines=150000, only=None):
         ctx = self.ctx
         sp = os.path.join(ctx.scratch, 'scripts_%s.ndjson' % store)
-        common.ndjson_write(sp, self.scripts)
+        common.ndjson_write(sp, [s_ for s_ in self.scripts if only is None or only(s_)])
         tp = os.path.join(ctx.scratch, 'trace_%s.ndjson' % store)
         p = ctx.run_vh(['session', '-scripts', sp, '-out', tp, '-store', store, '-repo', common.REPO], timeout=3000)
         if p.returncode != 0:
@@ -377,8 +377,11 @@ def standard_run(ctx, pid, family, props, confs, quick_budget, thorough_budget, 
     samples = []
     distinct = set()
     for store in stores:
+        only = None
+        if isinstance(store, tuple):          # (store, predicate on scripts)
+            store, only = store
         t1 = time.time()
-        rows, viols, divs = fam.replay_and_validate(store=store)
+        rows, viols, divs = fam.replay_and_validate(store=store, only=only)
         ctx.notes.append('R+V(%s) %.1fs' % (store, time.time() - t1))
         total_rows += len(rows)
         if divs:
@@ -398,7 +401,7 @@ def standard_run(ctx, pid, family, props, confs, quick_budget, thorough_budget, 
             samples = [{'cfg': rows[i0]['cfg'], 'trace': [{'ev': brief_ev(r['ev']), 'out': brief_out(r['out']),
                         'cb': [c['k'] + ':' + c['t'] + ':' + str(c['seq']) for c in r['cb']], 'post': brief_post(r['post'])}
                         for r in rows[i0 + 1:i0 + 9] if r['ev'].get('k') != 'TraceReset']}]
-        if store == stores[0]:
+        if store == (stores[0][0] if isinstance(stores[0], tuple) else stores[0]):
             negative_control(ctx, fam, rows)
     if fam.panics:
         ctx.notes.append('%d script(s) ended in a panic of the implementation (reported under C09): %s' % (
@@ -407,11 +410,11 @@ def standard_run(ctx, pid, family, props, confs, quick_budget, thorough_budget, 
         'states': fam.states, 'transitions': fam.transitions,
         'graph_edges': fam.graph_edges, 'edges_covered_by_scripts': fam.edges_covered,
         'switch_pairs_covered': fam.pairs_cov, 'switch_pairs_total': fam.pairs_tot,
-        'traces_validated_against_impl': len(fam.scripts) * len(stores),
+        'traces_validated_against_impl': len(fam.scripts) * len([st_ for st_ in stores if not isinstance(st_, tuple)]),
         'evaluations': total_rows,
         'distinct_nontrivial': len(distinct),
         'rule': 'one case = one event executed on a real session; distinct = distinct (state before, event) pairs',
-        'configurations': fam.confs, 'stores': stores, 'event_kinds_in_model': sorted(kinds),
+        'configurations': fam.confs, 'stores': [st_[0] if isinstance(st_, tuple) else st_ for st_ in stores], 'event_kinds_in_model': sorted(kinds),
         'samples': samples, 'exhaustive': False,
         'monitors': statement,
         'panicked_scripts': len(fam.panics),
